@@ -607,6 +607,8 @@ def gen_message(rng, i):
     body = rng.choice(["", "plain", json.dumps({"a": [1, 2, {"b": None}]}), "ünïcødé ✓", b"\x00\xff\xfebytes", "x" * 5000])
     props = rng.choice([None, {}, {"a": 1}, {"s": "t", "n": 1.5, "b": True, "nested": {"x": [1]}}, {"x-amqp-0-9-1.other": 1}])
     m = dict(body=body, properties=copy.deepcopy(props))
+    if props is None and rng.random() < 0.6:
+        del m["properties"]         # the constructor's own default
     for f, pool in (("correlation_id", [None, "c-%d" % i, "", "ünï"]), ("reply_to", [None, "reply-q", "amq.gen-xyz"]), ("message_id", [None, "m-%d" % i]),
                     ("content_type", [None, "application/json", "text/plain"]), ("content_encoding", [None, "utf-8"]), ("priority", [None, 0, 9]),
                     ("type", [None, "t"]), ("app_id", [None, "app"]), ("user_id", [None]), ("timestamp", [None, 1700000000]), ("durable", [True, False])):
@@ -614,32 +616,37 @@ def gen_message(rng, i):
         if v is not None or rng.random() < 0.3:
             m[f] = v
     m["expiration"] = EXPIRATIONS[i % len(EXPIRATIONS)] if rng.random() < 0.8 else rng.choice(EXPIRATIONS)
-    if rng.random() < 0.7:
+    r = rng.random()
+    if r < 0.35:
         m["subject"] = "mq"
+    elif r < 0.6:
+        m["subject"] = "mq2"        # routed by its own subject, not by the producer's default
+    elif r < 0.75:
+        m["subject"] = None
     return m
 
 
 def mapping_on(flavour, msgs):
     lib = Lib(flavour)
     try:
-        got = []
-        lib.consumer('mq; {"node": {"durable": true}}', got)
+        sinks = {"mq": [], "mq2": []}
+        lib.consumer('mq; {"node": {"durable": true}}', sinks["mq"])
+        lib.consumer('mq2; {"node": {"durable": true}}', sinks["mq2"])
         p = lib.producer("")
+        p.subject = "mq"            # routing default of the producer
         out = []
         for m in msgs:
-            n0 = len(got)
+            want = m.get("subject") or "mq"
+            got, other = sinks[want], sinks["mq2" if want == "mq" else "mq"]
+            n0, o0 = len(got), len(other)
             kw = copy.deepcopy(m)       # (the Message keeps and extends the properties object it is given)
-            if "subject" not in kw:
-                kw["subject"] = None
             try:
                 msg = lib.M.Message(**kw)
-                if not msg.subject:
-                    p.subject = "mq"            # routing default of the producer
                 p.send(msg)
                 lib.pump()
-                out.append(("ok", got[n0] if len(got) > n0 else None, len(got) - n0))
+                out.append(("ok", got[n0] if len(got) > n0 else None, len(got) - n0, len(other) - o0))
             except Exception as e:
-                out.append(("raised", "%s: %s" % (type(e).__name__, e), 0))
+                out.append(("raised", "%s: %s" % (type(e).__name__, e), 0, 0))
         return out, lib.ops()
     finally:
         lib.close()
@@ -658,10 +665,14 @@ def mapping_case(ctx, base, n):
         if m.get("expiration") is not None:
             ctx.nontrivial(["M", base + j])
         for fl in ("asyncio", "blocking"):
-            status, got, n_arrived = res[fl][0][j]
-            wit = dict(flavour=fl, sent={k: (v if not isinstance(v, bytes) else v.hex()) for k, v in m.items()})
+            status, got, n_arrived, n_elsewhere = res[fl][0][j]
+            wit = dict(flavour=fl, sent={k: (v if not isinstance(v, bytes) else v.hex()) for k, v in m.items()}, position_in_sequence=j,
+                       sent_before=[dict(subject=x.get("subject", "(not given)"), properties=x.get("properties", "(not given)")) for x in msgs[max(0, j - 3):j]])
             if status == "raised":
                 ctx.violation("send-raised", dict(wit, exception=got), "expiration-non-finite-raises" if cls == "non-finite" else None)
+                continue
+            if n_elsewhere:
+                ctx.violation("message-routed-to-another-queue-than-its-subject-or-the-producer-default", dict(wit, arrived_elsewhere=n_elsewhere), None)
                 continue
             if n_arrived != 1:
                 ctx.violation("sent-message-did-not-arrive-once", dict(wit, arrived=n_arrived), None)
